@@ -53,7 +53,7 @@ def fold(case, lin):
     seq = []
     pre = case.get("predone", {})
     for i in distinct:
-        if str(i) in pre:
+        if str(i) in pre and pre[str(i)][0] != "running":
             seq.append(("c", i, combo.outcome_of_spec(pre[str(i)], combo.src(i))))
     for ev in lin:
         if ev["kind"] == "x":
@@ -89,7 +89,7 @@ def evaluate(case):
     single = len(case["args"]) == 1
     s, w, obs = combo.run(case, expr_of(case))
     viols = []
-    info = {"end": obs["end"], "concurrent": combo.concurrent(obs["events"])}
+    info = {"end": obs["end"], "concurrent": combo.concurrent(obs["events"]), "steps": s.steps}
 
     def bad(sig, **detail):
         detail["observed"] = {"final": obs["final"], "cancel_calls": obs["cancel_calls"], "events": obs["events"]}
@@ -131,7 +131,7 @@ def evaluate(case):
         bad("wrong-outcome:%s-for-%s" % (got[0], "|".join(sorted(set(e[0] for e in expected)))), expected=expected[:6], got=got)
     # cancel fan-out
     distinct = sorted(set(case["args"]))
-    pre = case.get("predone", {})
+    pre = dict((k, v) for k, v in case.get("predone", {}).items() if v[0] != "running")
     nocancel = set(case.get("nocancel", []))
     decided = got[0] != "pending"
     completed = set(int(i) for i in pre) | set(e["input"] for e in obs["events"] if e["kind"] == "c" and not e["noop"])
@@ -196,6 +196,7 @@ def account(ctx, case, viols, info, extra=()):
 
 
 KINDS = ["T", "F", "E", "C", "N"]
+# (kind "R" - an input that is RUNNING: it refuses cancel() but must still be asked - is added by the concurrent catalogue and the random generator)
 
 
 def spec_of(kind, variant=0):
@@ -250,10 +251,41 @@ def enum_cases(maxn, part, parts):
                         yield {"comb": comb, "n": n, "args": list(range(n)), "threads": [evs[:pos] + [["x"]] + evs[pos:]], "tape": []}
 
 
+DEEP = {"f_or": ("TF", "TE"), "f_and": ("FT", "ET", "CT")}
+
+
+def conc_catalog():
+    """Two inputs completed by two threads at the same instant; a third input that is pending or running."""
+    out = {}
+    pairs = [("T", "F"), ("F", "T"), ("T", "T"), ("F", "F"), ("E", "T"), ("T", "E"), ("C", "T"), ("F", "C")]
+    for comb in ("f_or", "f_and"):
+        for a, b in pairs:
+            out["%s/%s%s" % (comb, a, b)] = {"comb": comb, "n": 2, "args": [0, 1],
+                                             "threads": [[["c", 0] + spec_of(a, 0)], [["c", 1] + spec_of(b, 1)]], "tape": []}
+        for third in ("N", "R"):
+            pre = {"2": ["running"]} if third == "R" else {}
+            out["%s/TF+%s" % (comb, third)] = {"comb": comb, "n": 3, "args": [0, 1, 2], "predone": pre,
+                                               "threads": [[["c", 0] + spec_of("T", 0)], [["c", 1] + spec_of("F", 1)], [["x"]]], "tape": []}
+    # the output is cancelled while nothing else happens: every pending input - running ones included - must be asked
+    for comb in ("f_or", "f_and"):
+        for kinds in (("N", "R"), ("R", "R"), ("R", "N"), ("N", "N", "R")):
+            pre = dict((str(i), ["running"]) for i, k in enumerate(kinds) if k == "R")
+            out["%s/x-only-%s" % (comb, "".join(kinds))] = {"comb": comb, "n": len(kinds), "args": list(range(len(kinds))), "predone": pre,
+                                                            "threads": [[["x"]], []], "tape": [], "no_deep": True}
+    return out
+
+
 def shards(tier, seed):
     parts = 12
     maxn = 4 if tier == "quick" else 5
     specs = [{"mode": "enum", "maxn": maxn, "part": i, "parts": parts} for i in range(parts)]
+    cc = sorted(conc_catalog())
+    for i in range(0, len(cc), 4):
+        specs.append({"mode": "conc", "entries": cc[i:i + 4]})
+    for name in cc:
+        if name.split("/")[-1] in DEEP.get(name.split("/")[0], ()):
+            for part in range(3):
+                specs.append({"mode": "conc3", "entry": name, "part": part, "parts": 3, "window": 13 if tier == "quick" else 18})
     n = 300 if tier == "quick" else 5000
     for i in range(8):
         specs.append({"mode": "random", "seed": seed * 1000 + i, "n": n})
@@ -277,6 +309,8 @@ def case_strategy():
         for i in range(n):
             if kinds[i] != "N" and draw(st.integers(0, 5)) == 0:
                 pre[str(i)] = spec_of(kinds[i], draw(st.integers(0, 4)))
+            elif kinds[i] == "N" and draw(st.integers(0, 2)) == 0:
+                pre[str(i)] = ["running"]
         nthreads = draw(st.integers(2, 3))
         threads = [[] for _ in range(nthreads)]
         order = draw(st.permutations([i for i in range(n) if kinds[i] != "N" and str(i) not in pre]))
@@ -300,6 +334,40 @@ def run_shard(spec, ctx):
             k += 1
         ctx.exhaustive.append({"domain": "f_or/f_and: outcome kinds^n x completion orders, n<=%d; pre-done masks, duplicates, nocancel, output-cancel positions n<=3 (part %d/%d)" % (spec["maxn"], spec["part"], spec["parts"]),
                                "size": k, "complete": True})
+    elif spec["mode"] == "conc":
+        cat = conc_catalog()
+        for name in spec["entries"]:
+            base = cat[name]
+            v, info = evaluate(base)
+            account(ctx, base, v, info, ["conc"])
+            n = info.get("steps", 0)
+            count = 0
+            w = spec.get("window", 10)
+            for i in range(n + 1):
+                for p in (0, 1):
+                    c = dict(base, tape=[[i, p]])
+                    v, info = evaluate(c)
+                    account(ctx, c, v, info, ["conc1"])
+                    count += 1
+            ctx.exhaustive.append({"domain": "concurrent completion of %s: every single pre-emption" % name, "size": count, "complete": True})
+    elif spec["mode"] == "conc3":
+        # three pre-emptions ("B starts, A decides, B publishes first") for the pairs in which the first finisher decides
+        base = conc_catalog()[spec["entry"]]
+        v, info = evaluate(base)
+        n = info.get("steps", 0)
+        w = spec["window"]
+        count = 0
+        for i in range(n + 1):
+            if i % spec["parts"] != spec["part"]:
+                continue
+            for j in range(w):
+                for k in range(w):
+                    c = dict(base, tape=[[i, 0], [j, 0], [k, 0]])
+                    v, info = evaluate(c)
+                    account(ctx, c, v, info, ["conc3"])
+                    count += 1
+        ctx.exhaustive.append({"domain": "concurrent completion of %s: every triple pre-emption with windows %d,%d (part %d/%d)" % (spec["entry"], w, w, spec["part"], spec["parts"]),
+                               "size": count, "complete": True})
     else:
         progs.random_search(ctx, spec, case_strategy(), evaluate, account)
 
